@@ -3,8 +3,8 @@
    Proved over Model/Registry.v (System.addObject / handleDuplicate / _remove / _addUnprocessedModule /
    _handleDuplicateModule, Documentable.reparent, defaultPostProcess, Documentable.url), for ALL histories:
    the invariant Inv of Spec/RegistryInv.v (I1-I5) holds initially and is preserved by every operation under
-   its guard.  The guards are exactly the complement of five classes of genuine defects of pydoctor, each kept as
-   a kernel-checked witness (_refuted) and listed in known_findings/C02.json.
+   its guard.  The guards are exactly the complement of the classes of genuine defects of pydoctor listed in
+   known_findings/C02.json, each kept as a kernel-checked witness (_refuted; _old_refuted for a repaired one).
 
    NOT proved (sampled by the correspondence check, harness/c02.py): that the AST builder only issues guarded
    operations; name resolution inside compute_mro / find_object (C04, C07): the resolved bases and the resolved
@@ -32,29 +32,34 @@ Theorem C02_inv_add :
 Proof. exact step_add_child_inv. Qed.
 
 (* _addUnprocessedModule of a new module / package, top-level or inside a registered package, and BOTH duplicate
-   rules of _handleDuplicateModule: "packages win" (the later module is dropped, nothing changes) and, inside a
-   package, "the last wins" (self._remove(first): the old module and everything below it leave the registry, the
-   new module takes the name and the contents entry).  Excluded by the guard: the last-wins replacement of a
-   TOP-LEVEL module (C02_dup_root_refuted). *)
+   rules of _handleDuplicateModule: "packages win" (the later module is dropped, nothing changes) and "the last wins"
+   (self._remove(first): the old module and everything below it leave the registry; the modules below it leave
+   unprocessed_modules; it leaves its parent's contents and rootobjects; the new module takes the name) -- at top
+   level and inside a package alike, since the repairs 3d2c96f + f6d4b31.  Guard: nothing superseded below `first`. *)
 Theorem C02_inv_add_module :
   forall s pkg n parent s', Inv s -> guard_add_module s pkg n parent ->
                             step s (AddModule pkg n parent) = Some s' -> Inv s'.
 Proof. exact step_add_module_inv. Qed.
 
-(* ... the duplicate case spelled out: a module q.n is registered, another one of that name arrives. *)
+(* ... the duplicate cases spelled out: a module of that name is registered, another one arrives. *)
 Theorem C02_inv_dup_module :
   forall s pkg n q pq first s',
     Inv s -> reg s q -> ocl (store s q) = CPackage -> fullpath s q = Some pq ->
-    rget (pq ++ [n]) (allobj s) = Some first ->
-    (ocl (store s first) = CPackage /\ pkg = false) \/
-    (is_module (ocl (store s first)) = true /\ ocls_eqb (ocl (store s first)) CPackage && negb pkg = false /\
-     In first (unproc s) /\ covered s first) ->
+    rget (pq ++ [n]) (allobj s) = Some first -> replace_ok s pkg first ->
     step s (AddModule pkg n (Some q)) = Some s' -> Inv s'.
 Proof.
   intros s pkg n q pq first s' HI Hq Hqp Hpq Hf Hcase H.
   apply (step_add_module_inv s pkg n (Some q) s' HI); [|exact H].
   cbn. split; [exact Hq|]. split; [exact Hqp|]. intros pq' first' Hpq' Hf'.
   rewrite Hpq in Hpq'. inversion Hpq'; subst pq'. rewrite Hf in Hf'. inversion Hf'; subst first'. exact Hcase.
+Qed.
+Theorem C02_inv_dup_root_module :
+  forall s pkg n first s',
+    Inv s -> rget [n] (allobj s) = Some first -> replace_ok s pkg first ->
+    step s (AddModule pkg n None) = Some s' -> Inv s'.
+Proof.
+  intros s pkg n first s' HI Hf Hcase H. apply (step_add_module_inv s pkg n None s' HI); [|exact H].
+  cbn. intros first' Hf'. rewrite Hf in Hf'. inversion Hf'; subst first'. exact Hcase.
 Qed.
 
 (* I4, derived: from every registered object the walk up `parent` ends -- the fuel does not run out -- in a member
@@ -202,10 +207,21 @@ Theorem C02_reparent_collision_refuted :
               ~ Inv (final ops).
 Proof. exists ops_reparent_collision. exact reparent_collision_witness. Qed.
 
-(* a top-level module replaced by a same-named one stays in rootobjects, unregistered. *)
-Theorem C02_dup_root_refuted :
-  exists ops, raised ops = None /\ In 0 (roots (final ops)) /\ registered (final ops) 0 = false /\ ~ Inv (final ops).
-Proof. exists ops_dup_root. exact dup_root_witness. Qed.
+(* REPAIRED by 3d2c96f + f6d4b31.  On the code before the repairs (Registry.step_old) a top-level module replaced by a
+   same-named one stayed in rootobjects, unregistered; on the repaired code the same history is guarded, satisfies
+   Inv, and rootobjects holds the new module only. *)
+Theorem C02_dup_root_old_refuted :
+  exists ops, run_old init ops = Some (final_old ops) /\ In 0 (roots (final_old ops)) /\
+              registered (final_old ops) 0 = false /\ ~ Inv (final_old ops).
+Proof. exists ops_dup_root. exact dup_root_old_witness. Qed.
+Theorem C02_dup_root_old_step_refuted :
+  exists pre n, Inv (final pre) /\ step_old (final pre) (AddModule true n None) = Some (final_old (pre ++ [AddModule true n None])) /\
+                ~ Inv (final_old (pre ++ [AddModule true n None])).
+Proof. exists (removelast ops_dup_root), a_. exact dup_root_old_step. Qed.
+Theorem C02_dup_root_repaired :
+  run_ops init ops_dup_root 0 true = (final ops_dup_root, None, true) /\ Inv (final ops_dup_root) /\
+  roots (final ops_dup_root) = [1].
+Proof. exact dup_root_repaired. Qed.
 
 (* a sub-module re-exported by a plain module ends up inside a module that is not a package. *)
 Theorem C02_module_reexport_refuted : exists ops, raised ops = None /\ ~ Inv (final ops).
@@ -217,8 +233,6 @@ Theorem C02_dup_nested_step_refuted : exists pre o, breaks pre o.
 Proof. eexists. eexists. exact dup_nested_step. Qed.
 Theorem C02_reparent_collision_step_refuted : exists pre o np nn, breaks pre (Reparent o np nn).
 Proof. eexists. eexists. eexists. eexists. exact reparent_collision_step. Qed.
-Theorem C02_dup_root_step_refuted : exists pre n, breaks pre (AddModule true n None).
-Proof. eexists. eexists. exact dup_root_step. Qed.
 Theorem C02_module_reexport_step_refuted : exists pre o np nn, breaks pre (Reparent o np nn).
 Proof. eexists. eexists. eexists. eexists. exact module_reexport_step. Qed.
 
